@@ -8,7 +8,7 @@ RULE = ('receiver: adversarial wire feeds (see C01) incl. duplicated / stale / r
         'oracle: returned ids strictly increasing, every delivered frame is the payload published for that (source, id, topic) under the name the '
         'subscription maps it to, unsubscribed and hidden topics never delivered.  sender: adversarial request feeds (duplicated, stale, ahead, restarted '
         'clients, OOB/CLOSE, time-outs up to eviction); oracle: one id per call, published ids strictly increasing.  non-trivial = a set returned / a block published')
-ASSUMPTIONS = ['libzmq replaced by the in-process fake (FIFO per connection, prefix filtering)', 'payload bytes are represented by an identity token carried in the envelope; the byte-level codec is C09']
+ASSUMPTIONS = ['libzmq replaced by the in-process fake (FIFO per connection, prefix filtering); the thorough tier runs one lock-step script on real ipc:// sockets and on the fake and compares what the consumers are handed (harness/ofverif/realsmoke.py)', 'payload bytes are represented by an identity token carried in the envelope; the byte-level codec is C09']
 TRUSTED = ['transcriptions OFModel/Zmq/Receiver.lean and Sender.lean, compared call-by-call with the real classes']
 
 
@@ -17,3 +17,11 @@ def run(ctx):
     protocol.recv_campaign(ctx, 'C02', n, ['wf', 'adv', 'adv', 'bal'])
     protocol.send_campaign(ctx, 'C02', n, ['sync', 'adv', 'adv', 'bal'])
     if not ctx.replay: pipeline.campaign_sets(ctx, 'C02', 400 if ctx.thorough else 40)
+    if ctx.thorough and not ctx.replay:
+        # keep the fake honest: the same lock-step script on real libzmq ipc:// sockets (subprocess, untouched zeromq module) and on the fake
+        from .. import realsmoke
+        try: ok, real, fake = realsmoke.compare()
+        except Exception as e: ok, real, fake = False, {'error': repr(e)[:200]}, None
+        ctx.result.extra['libzmq_smoke'] = {'agrees': ok, 'sets': len((real or {}).get('sync', []))}
+        if ok: ctx.result.traces_validated += 1
+        else: ctx.result.disagreements.append({'point': 'fakezmq vs libzmq (ipc://) lock-step smoke', 'case': None, 'impl': real, 'model': fake})
